@@ -185,3 +185,15 @@ Theorem C08_has_reports_nothing_that_was_never_put :
                 ~ (h_ret hist b < h_inv hist a)%N.
 Proof. exact lin_has_only_put. Qed.
 Print Assumptions C08_has_reports_nothing_that_was_never_put.
+
+(* The OnPut callbacks of the deferred writer (registered before the concurrent phase; OnPut itself is
+   not an operation of the property): Put's loop -- call every registered callback in order, drop the
+   once-only ones -- run n times fires a once-only callback exactly once (if n > 0) and a persistent one
+   n times.  [cb_expected] is what the dynamic check (RunConc.prop_conc) demands of the implementation's
+   invocation counts, with n = the number of Puts that returned without error. *)
+Theorem C08_onput_callbacks_fire_counts :
+  forall (cbs : list (nat * bool)) (i : nat) (once : bool) (n : nat),
+    NoDup (map fst cbs) -> In (i, once) cbs ->
+    count_occ PeanoNat.Nat.eq_dec (cb_fires cbs n) i = N.to_nat (cb_expected once (N.of_nat n)).
+Proof. exact cb_fires_counts. Qed.
+Print Assumptions C08_onput_callbacks_fire_counts.
